@@ -82,6 +82,13 @@ def genCfg : SqlCfg :=
     insertInTxn := Gen.StoreWrite.sqlInsertInTxn, changelogInTxn := Gen.StoreWrite.sqlChangelogInTxn,
     rollbackDeferred := Gen.StoreWrite.sqlRollbackDeferred }
 
+/-- the condition comparison the source makes today (see `Gen.StoreWrite.memCondCompare` / `sqlCondCompare`):
+    the raw comparison, or — once both sides go through `NewRelationshipCondition` — the normalised one -/
+def memCeq : TupleRec → TupleRec → Bool :=
+  if (Gen.StoreWrite.memCondCompare.splitOn "NewRelationshipCondition").length > 2 then semCondEq else condEq
+def sqlCeq : TupleRec → TupleRec → Bool :=
+  if (Gen.StoreWrite.sqlCondCompare.splitOn "NewRelationshipCondition").length > 1 then semCondEq else condEq
+
 /-- model state of one session: the memory store (raw records) or the SQL database -/
 inductive MState where
   | mem (s : StoreState)
@@ -113,10 +120,10 @@ def stepModel (backend : String) (m : MState) (r : Req) (now : Nat) (f : Option 
   | .ok o =>
     match m with
     | .mem s =>
-      let (s', e) := memWrite s r.dels r.writes o now
+      let (s', e) := memWrite memCeq s r.dels r.writes o now
       (.mem s', match e with | none => "ok" | some e => e.name)
     | .sql db =>
-      let (db', e) := sqlWrite genCfg db r.dels r.writes o now f
+      let (db', e) := sqlWrite sqlCeq genCfg db r.dels r.writes o now f
       (.sql db', match e with | none => "ok" | some e => e.name)
 
 /-! ### what the implementation printed -/
